@@ -104,20 +104,26 @@ type recTB struct {
 	msgs   []string
 }
 
-func (r *recTB) Helper()                   {}
-func (r *recTB) Name() string              { return "sim" }
-func (r *recTB) Logf(string, ...any)       {}
-func (r *recTB) Log(...any)                {}
-func (r *recTB) Skipf(string, ...any)      {}
-func (r *recTB) Skip(...any)               {}
-func (r *recTB) SkipNow()                  {}
-func (r *recTB) Errorf(f string, a ...any) { r.failed = true; r.msgs = append(r.msgs, fmt.Sprintf(f, a...)) }
-func (r *recTB) Error(a ...any)            { r.failed = true; r.msgs = append(r.msgs, fmt.Sprint(a...)) }
-func (r *recTB) Fatalf(f string, a ...any) { r.failed = true; r.msgs = append(r.msgs, fmt.Sprintf(f, a...)) }
-func (r *recTB) Fatal(a ...any)            { r.failed = true; r.msgs = append(r.msgs, fmt.Sprint(a...)) }
-func (r *recTB) FailNow()                  { r.failed = true }
-func (r *recTB) Fail()                     { r.failed = true }
-func (r *recTB) Failed() bool              { return r.failed }
+func (r *recTB) Helper()              {}
+func (r *recTB) Name() string         { return "sim" }
+func (r *recTB) Logf(string, ...any)  {}
+func (r *recTB) Log(...any)           {}
+func (r *recTB) Skipf(string, ...any) {}
+func (r *recTB) Skip(...any)          {}
+func (r *recTB) SkipNow()             {}
+func (r *recTB) Errorf(f string, a ...any) {
+	r.failed = true
+	r.msgs = append(r.msgs, fmt.Sprintf(f, a...))
+}
+func (r *recTB) Error(a ...any) { r.failed = true; r.msgs = append(r.msgs, fmt.Sprint(a...)) }
+func (r *recTB) Fatalf(f string, a ...any) {
+	r.failed = true
+	r.msgs = append(r.msgs, fmt.Sprintf(f, a...))
+}
+func (r *recTB) Fatal(a ...any) { r.failed = true; r.msgs = append(r.msgs, fmt.Sprint(a...)) }
+func (r *recTB) FailNow()       { r.failed = true }
+func (r *recTB) Fail()          { r.failed = true }
+func (r *recTB) Failed() bool   { return r.failed }
 
 type ReplayFile struct {
 	Property  string    `json:"property"`
@@ -135,28 +141,28 @@ type ReplayFile struct {
 }
 
 type WorkerOut struct {
-	Property    string         `json:"property"`
-	Worker      int            `json:"worker"`
-	Seed        uint64         `json:"seed"`
-	Runs        int            `json:"runs"`
-	ShrinkRuns  int            `json:"shrink_runs"`
-	Nontrivial  int            `json:"nontrivial"`
-	Steps       int64          `json:"steps"`
-	Preempts    int64          `json:"preempts"`
-	SimTimeUs   int64          `json:"sim_time_us"`
-	WallS       float64        `json:"wall_s"`
-	Counters    map[string]int `json:"counters"`
-	PerProfile  map[string]int `json:"runs_per_profile"`
-	Samples     []any          `json:"samples"`
-	Violation   *Violation     `json:"violation,omitempty"`
-	Replay      string         `json:"replay,omitempty"`
-	Known       map[string]int `json:"known_hits,omitempty"`
+	Property    string            `json:"property"`
+	Worker      int               `json:"worker"`
+	Seed        uint64            `json:"seed"`
+	Runs        int               `json:"runs"`
+	ShrinkRuns  int               `json:"shrink_runs"`
+	Nontrivial  int               `json:"nontrivial"`
+	Steps       int64             `json:"steps"`
+	Preempts    int64             `json:"preempts"`
+	SimTimeUs   int64             `json:"sim_time_us"`
+	WallS       float64           `json:"wall_s"`
+	Counters    map[string]int    `json:"counters"`
+	PerProfile  map[string]int    `json:"runs_per_profile"`
+	Samples     []any             `json:"samples"`
+	Violation   *Violation        `json:"violation,omitempty"`
+	Replay      string            `json:"replay,omitempty"`
+	Known       map[string]int    `json:"known_hits,omitempty"`
 	KnownReplay map[string]string `json:"known_replays,omitempty"`
-	HarnessErr  string         `json:"harness_error,omitempty"`
-	DetChecks   int            `json:"determinism_rechecks"`
-	NextBatch   int            `json:"next_batch"`
-	Hashes      []string       `json:"-"`
-	StateHashes int            `json:"distinct_final_states"`
+	HarnessErr  string            `json:"harness_error,omitempty"`
+	DetChecks   int               `json:"determinism_rechecks"`
+	NextBatch   int               `json:"next_batch"`
+	Hashes      []string          `json:"-"`
+	StateHashes int               `json:"distinct_final_states"`
 }
 
 func splitmix(x uint64) uint64 {
@@ -468,6 +474,11 @@ func runReplay(t *testing.T) {
 	if res.HarnessErr != "" {
 		fmt.Printf("HARNESS: %s\n", res.HarnessErr)
 		os.Exit(2)
+	}
+	for _, m := range res.Media {
+		for i, r := range m.Rows {
+			fmt.Printf("log %s[%d] id=%s %s gen=%d step=%d ik=%q data=%s\n", m.Name, i, r.ID, r.Type, r.Gen, r.Step, r.IK, r.Data)
+		}
 	}
 	reproduced := false
 	for _, v := range res.Violations {
